@@ -1,0 +1,87 @@
+//go:build verif
+
+package fastq
+
+import "bytes"
+
+// Property-level theorems for /verif/govc, written as client programs of the
+// contracted functions. Never called; verified modularly (each call is
+// replaced by the callee's contract).
+
+//@ theorem C02.roundtrip
+//@   props C02
+//@   requires f != nil && len(f.Sequence) == len(f.Quals)
+//@   requires forall j int :: 0 <= j && j < len(f.Name) ==> f.Name[j] != 10 && f.Name[j] != 13
+//@   requires forall j int :: 0 <= j && j < len(f.Sequence) ==> f.Sequence[j] != 10 && f.Sequence[j] != 13
+//@   requires forall j int :: 0 <= j && j < len(f.Quals) ==> f.Quals[j] != 10 && f.Quals[j] != 13
+// A record (name, sequence, qualities free of CR/LF, sequence and qualities of
+// equal length, every length) written with Write and read back through the
+// line scanner is the same record. The scanner is bufio.Scanner with ScanLines
+// over the written bytes (assumed contract: specs/00base.spec lnN/lnS/lnT/lnE).
+func thmRoundTrip(f *Fastq) {
+	buf := &bytes.Buffer{}
+	f.Write(buf)
+	rd := newReader(buf)
+	a := len(f.Name)
+	s := len(f.Sequence)
+	//@ assert len(buf.out) == 6 + a + 2 * s
+	//@ assert lnT(arr(buf.out), len(buf.out), 0) == 1 + a
+	//@ assert lnS(arr(buf.out), len(buf.out), 1) == 2 + a && lnT(arr(buf.out), len(buf.out), 1) == 2 + a + s
+	//@ assert lnS(arr(buf.out), len(buf.out), 2) == 3 + a + s && lnT(arr(buf.out), len(buf.out), 2) == 4 + a + s
+	//@ assert lnS(arr(buf.out), len(buf.out), 3) == 5 + a + s && lnT(arr(buf.out), len(buf.out), 3) == 5 + a + 2 * s
+	//@ assert rd.s.n == 4
+	g, err := rd.read()
+	//@ assert err == nil && g != nil
+	//@ assert len(g.Name) == a && forall j int :: 0 <= j && j < a ==> g.Name[j] == f.Name[j]
+	//@ assert len(g.Sequence) == s && forall j int :: 0 <= j && j < s ==> g.Sequence[j] == f.Sequence[j]
+	//@ assert len(g.Quals) == s && forall j int :: 0 <= j && j < s ==> g.Quals[j] == f.Quals[j]
+	_, _, _, _ = g, err, a, s
+}
+
+//@ theorem C02.roundtrip2
+//@   props C02
+//@   requires f1 != nil && len(f1.Sequence) == len(f1.Quals) && f2 != nil && len(f2.Sequence) == len(f2.Quals)
+//@   requires forall j int :: 0 <= j && j < len(f1.Name) ==> f1.Name[j] != 10 && f1.Name[j] != 13
+//@   requires forall j int :: 0 <= j && j < len(f1.Sequence) ==> f1.Sequence[j] != 10 && f1.Sequence[j] != 13
+//@   requires forall j int :: 0 <= j && j < len(f1.Quals) ==> f1.Quals[j] != 10 && f1.Quals[j] != 13
+//@   requires forall j int :: 0 <= j && j < len(f2.Name) ==> f2.Name[j] != 10 && f2.Name[j] != 13
+//@   requires forall j int :: 0 <= j && j < len(f2.Sequence) ==> f2.Sequence[j] != 10 && f2.Sequence[j] != 13
+//@   requires forall j int :: 0 <= j && j < len(f2.Quals) ==> f2.Quals[j] != 10 && f2.Quals[j] != 13
+// Two records written one after the other are read back in order (the step of
+// the list statement: after the first read the scanner stands at the first
+// line of the second record), and then the stream is exhausted cleanly.
+func thmRoundTrip2(f1, f2 *Fastq) {
+	buf := &bytes.Buffer{}
+	f1.Write(buf)
+	f2.Write(buf)
+	rd := newReader(buf)
+	a1 := len(f1.Name)
+	s1 := len(f1.Sequence)
+	b := 6 + a1 + 2*s1 // start of the second record
+	a2 := len(f2.Name)
+	s2 := len(f2.Sequence)
+	//@ assert len(buf.out) == b + 6 + a2 + 2 * s2
+	//@ assert lnT(arr(buf.out), len(buf.out), 0) == 1 + a1
+	//@ assert lnS(arr(buf.out), len(buf.out), 1) == 2 + a1 && lnT(arr(buf.out), len(buf.out), 1) == 2 + a1 + s1
+	//@ assert lnS(arr(buf.out), len(buf.out), 2) == 3 + a1 + s1 && lnT(arr(buf.out), len(buf.out), 2) == 4 + a1 + s1
+	//@ assert lnS(arr(buf.out), len(buf.out), 3) == 5 + a1 + s1 && lnT(arr(buf.out), len(buf.out), 3) == 5 + a1 + 2 * s1
+	//@ assert lnS(arr(buf.out), len(buf.out), 4) == b && lnT(arr(buf.out), len(buf.out), 4) == b + 1 + a2
+	//@ assert lnS(arr(buf.out), len(buf.out), 5) == b + 2 + a2 && lnT(arr(buf.out), len(buf.out), 5) == b + 2 + a2 + s2
+	//@ assert lnS(arr(buf.out), len(buf.out), 6) == b + 3 + a2 + s2 && lnT(arr(buf.out), len(buf.out), 6) == b + 4 + a2 + s2
+	//@ assert lnS(arr(buf.out), len(buf.out), 7) == b + 5 + a2 + s2 && lnT(arr(buf.out), len(buf.out), 7) == b + 5 + a2 + 2 * s2
+	//@ assert rd.s.n == 8
+	g1, err1 := rd.read()
+	//@ assert err1 == nil && g1 != nil && rd.s.pos == 4
+	//@ assert len(g1.Name) == a1 && forall j int :: 0 <= j && j < a1 ==> g1.Name[j] == f1.Name[j]
+	//@ assert len(g1.Sequence) == s1 && forall j int :: 0 <= j && j < s1 ==> g1.Sequence[j] == f1.Sequence[j]
+	//@ assert len(g1.Quals) == s1 && forall j int :: 0 <= j && j < s1 ==> g1.Quals[j] == f1.Quals[j]
+	g2, err2 := rd.read()
+	//@ assert err2 == nil && g2 != nil && rd.s.pos == 8
+	//@ assert len(g2.Name) == a2 && forall j int :: 0 <= j && j < a2 ==> g2.Name[j] == f2.Name[j]
+	//@ assert len(g2.Sequence) == s2 && forall j int :: 0 <= j && j < s2 ==> g2.Sequence[j] == f2.Sequence[j]
+	//@ assert len(g2.Quals) == s2 && forall j int :: 0 <= j && j < s2 ==> g2.Quals[j] == f2.Quals[j]
+	g3, err3 := rd.read()
+	//@ assert g3 == nil && err3 == 1
+	_, _, _, _, _, _ = g1, err1, g2, err2, g3, err3
+	_, _, _, _, _ = a1, s1, b, a2, s2
+}
